@@ -98,6 +98,10 @@ where
             StreamElement::Terminate => (ElemKind::Terminate, None),
             StreamElement::FlushAndRestart => (ElemKind::FlushAndRestart, None),
         };
+        let m_in = match &el {
+            StreamElement::Item(x) | StreamElement::Timestamped(x, _) => x.rec().m,
+            _ => 0,
+        };
         if self.stamp {
             if let StreamElement::Item(x) | StreamElement::Timestamped(x, _) = &mut el {
                 x.rec_mut().m = stamp_word(self.id, self.global_id, self.iter, self.seq);
@@ -130,6 +134,8 @@ where
                     ts,
                     v,
                     m,
+                    m_in,
+                    iter: self.iter,
                     pad,
                     digest,
                     state,
